@@ -90,9 +90,9 @@ def _unit_worker(job):
                 if res['status'] == 'unknown' and 'timeout' in res.get('reason', '') and not res.get('reason', '').startswith('skipped'):
                     retry.append((rec, getattr(ob, 'hyps_full', None) or ob.hyps, g))
                 out['results'].append(rec)
-        # a time-out is not a verdict: one more attempt with three times the budget (a busy machine must not flip a verdict)
-        for rec, hyps, g in retry[:6]:
-            res = solve_one((0, to_smt2(hyps, g), 3 * timeout_ms, use_cvc5))
+        # a time-out is not a verdict: one more attempt (at most three obligations per unit) with twice the budget (a busy machine must not flip a verdict)
+        for rec, hyps, g in retry[:3]:
+            res = solve_one((0, to_smt2(hyps, g), 2 * timeout_ms, False))
             rec['seconds'] = round(rec['seconds'] + res['seconds'], 3)
             if res['status'] != 'unknown':
                 rec.update(status=res['status'], backend=res['backend'] + '+retry', reason=res.get('reason', '')[:160])
